@@ -255,7 +255,8 @@ def run(a):
     c = C08Check(PID, a.tier, a.seed)
     c.cov["rule"] = ("every op line is executed on the ART buffer and on the RBT buffer (result `art=… rbt=…`, collapsed when equal) and on the Lean "
                      "VLog model; cases = op sequences from one `reset`; exhaustive short sequences over a 6-key pool + seeded random sequences over an "
-                     "adversarial key pool; property ops: cleanup/revert view oracle, snapshot-ignores-staged oracle, evaluated per tree")
+                     "adversarial key pool + a directed family that fills the value log to the arena block boundaries (4 KiB, then doubling), stages values that spill "
+                     "into the next block and reads exactly those keys through every snapshot path, history and stage inspection; property ops: cleanup/revert view oracle, snapshot-ignores-staged oracle, evaluated per tree")
     c.assumptions = ["radix-tree / red-black-tree node algorithms are not modelled (tied only by the differential)",
                      "vlog addresses are modelled as log indices; arena block arithmetic is covered by the differential only (values crossing the 4 KiB block)",
                      "RevertToCheckpoint is only issued for checkpoints at or above the top staging mark and not beyond the current log end (other uses loop on garbage headers)",
